@@ -520,6 +520,37 @@ func PrePush(rng *rand.Rand) (ref.Pos, bool) {
 	return MaybeMirror(rng, p.Normalised()), true
 }
 
+// RawEP returns a valid position that carries a RAW en-passant target (the square behind a pawn
+// that has just double-pushed, whether or not a capture is legal or even possible), the way
+// many GUIs write FEN. It is NOT normalised.
+func RawEP(rng *rand.Rand) (ref.Pos, bool) {
+	var p ref.Pos
+	ok := false
+	if rng.IntN(2) == 0 {
+		p, ok = PrePush(rng)
+	}
+	if !ok {
+		c := Corpus()
+		st := Playout(rng, c[rng.IntN(len(c))], rng.IntN(30), BiasRich, 90)
+		p = c[0]
+		if len(st) > 0 {
+			p = st[len(st)-1].Pos
+		}
+	}
+	var pushes []ref.Move
+	for _, m := range p.Legal() {
+		v := p.Sq[m.From()]
+		if (v == ref.P || v == -ref.P) && (m.To()-m.From() == 16 || m.From()-m.To() == 16) {
+			pushes = append(pushes, m)
+		}
+	}
+	if len(pushes) == 0 {
+		return p, false
+	}
+	q := p.Make(pushes[rng.IntN(len(pushes))])
+	return q, q.Valid() && q.EP >= 0
+}
+
 // advStale: white king with few or no flight squares, pinned and blocked pieces, not in check.
 func advStale(rng *rand.Rand, p *ref.Pos) {
 	corners := [][2]int{{0, 0}, {7, 0}, {0, 7}, {7, 7}, {rng.IntN(8), 0}, {0, rng.IntN(8)}, {rng.IntN(8), rng.IntN(8)}}
